@@ -135,11 +135,25 @@ Record fout := FO {
 (* ---- values of a compiled field ------------------------------------------ *)
 
 Inductive value :=
-| VInt (z : Z) | VStr (s : str) | VBytes (b : str) | VBool (b : bool) | VEnum (n : Z)
-| VMsg.                    (* a populated message-typed field (content not constrained) *)
+| VInt (z : Z)
+| VStr (s : str)           (* the text as its sequence of Unicode code points (on the wire: their UTF-8 encoding) *)
+| VBytes (b : str)
+| VBool (b : bool)
+| VEnum (n : Z)
+| VFloat (bits : N)        (* IEEE 754 binary64 bit pattern (a float32 value widened exactly) *)
+| VMsg (id : N).           (* a populated message-typed field; [id] stands for its content:
+                              two messages are equal iff their ids are (0 = the empty message) *)
 
 Inductive fvalue :=
 | FAbsent                  (* explicit-presence field not populated *)
 | FOne (v : value)         (* singular field: Get(), i.e. the zero value when an implicit-presence field is unset *)
 | FMany (vs : list value)  (* repeated field *)
 | FMap (kvs : list (str * value)). (* map field: pairs with pairwise different keys *)
+
+(* ---- what the validator returns ------------------------------------------- *)
+(* protovalidate's Validate returns nil (accept), a *ValidationError (reject), or
+   another error: a *CompilationError (a constraint of the message type cannot be
+   compiled: every message of the type gets it) or a *RuntimeError (evaluating a
+   constraint failed on this message). The last two are not verdicts. *)
+Inductive errkind := ECompile | ERuntime.
+Inductive verdict := VAccept | VReject | VError (k : errkind).
